@@ -461,7 +461,7 @@ def parse_operand_and_addressing(
             operand = parse_expression(p)
             if accept_token(p.current(), TokenType.ADDRESSING_MODE_INDEX):
                 addressing_mode = AddressingMode.dp_or_sr_indirect_indexed
-                inner_index = p.current().value
+                inner_index = p.current().value.lower()
                 p.next()
             else:
                 addressing_mode = AddressingMode.indirect
